@@ -18,6 +18,7 @@ type FuncInfo struct {
 	phiJoin     map[*ssa.Phi][]phiRel
 	paramLen    map[int]int64
 	pathBusy    bool
+	liftCache   map[string]Fact
 	phiJoinBusy map[*ssa.Phi]bool
 
 	ids          map[ssa.Instruction]string
